@@ -85,8 +85,10 @@ func TestVerifC02(t *testing.T) {
 // C03 atomic commit and truthful outcome: fault actors on
 func TestVerifC03(t *testing.T) {
 	vfRunHistories(t, "C03", 240, 5000, func(i int, r func(int) int) vfProfile {
+		big := map[int]string{7: "write", 23: "read"}[i%30]
 		return vfProfile{workers: 3 + r(6), txns: 6 + r(8), keys: 6 + r(10), fkMode: vfFk(r), persistMs: 1 + r(5),
-			gates: r(2) == 0, readers: 2, maxOps: 3 + r(5), abortPct: 20, yieldPct: 50, faults: true}
+			gates: r(2) == 0, readers: 2, maxOps: 3 + r(5), abortPct: 20, yieldPct: 50, faults: big == "", // the limit transactions need longer than the forced max age
+			bigTxn: big}
 	})
 }
 
